@@ -61,7 +61,7 @@ def inst_has(*subs):
 
 # property -> list of (rule id, optional instance filter)
 PROPS = {
-    'C01': [('ENUM-OPEN', None), ('ENUM-SHAPE', None), ('ALIAS-SOLE', None), ('ALIAS-KEY', None), ('GRAMMAR', None), ('WIRE-1', inst_has('field[', 'typename-variant', 'floor/response-field', 'floor/spread', 'floor/typename')),
+    'C01': [('SEL-TOTAL', None), ('ENUM-OPEN', None), ('ENUM-SHAPE', None), ('ALIAS-SOLE', None), ('ALIAS-KEY', None), ('GRAMMAR', None), ('WIRE-1', inst_has('field[', 'typename-variant', 'floor/response-field', 'floor/spread', 'floor/typename')),
             ('WIRE-2', inst_has('field[')), ('SEL-FLATTEN', None), ('SEL-EMPTY-ENUM', None), ('ATTR-PRECISION', None),
             ('SEL-ITEM', None), ('SEL-CONSUME', None), ('SEL-PAIR', None), ('TAG-AGREE', None), ('VARIANTS-EXHAUSTIVE', None),
             ('EXTENSIONS', None), ('INGEST-ALL', None), ('ID-TYPING', None), ('ID-ABSENT', None), ('TYPES-2', None), ('TYPES-4', None),
@@ -84,22 +84,22 @@ PROPS = {
             ('BODY-KEYS', None), ('NO-FALLBACK', None), ('SAME-OP', None), ('QUERY-TEXT', None)],
     'C06': [('SET-SCOPE', None), ('ID-INDEX', None), ('CACHE-KEY', None), ('TYPENAME-SAME-TYPE', None), ('ROOTS-AGREE', None), ('LOOKUP-CHECKED', None), ('ERR-PROPAGATED', inst_has('query::', 'graphql_client_codegen::', 'GeneratedModule', 'codegen::')),
             ('VALIDATE-ORDER', None), ('KIND-MATRIX', None), ('COND-MATRIX', None), ('TYPENAME-MATRIX', None), ('ROOTS', None), ('UNION-FIELDS', None)],
-    'C07': [('SCALAR-BUILTIN', None), ('SIB-1', None), ('SIB-2', None), ('SIB-3', None), ('TYPES-3', None), ('JSON-SHAPES', None), ('EXT-DISPATCH', None),
+    'C07': [('STORE-TOTAL', None), ('VARIANTS-EXHAUSTIVE', None), ('CACHE-KEY', None), ('SCALAR-BUILTIN', None), ('SIB-1', None), ('SIB-2', None), ('SIB-3', None), ('TYPES-3', None), ('JSON-SHAPES', None), ('EXT-DISPATCH', None),
             ('ROOTS-AGREE', None), ('EXTENSIONS', None), ('ID-ORDER', None), ('INGEST-ALL', None), ('ENUM-VALUES', None)],
     'C08': [('STATE-INVENTORY', None), ('CACHE-ACCESS', None), ('CACHE-KEY', None), ('LOCK-DISCIPLINE', None), ('NO-AMBIENT', None), ('ORDERED', None)],
     'C09': [('SCAN-GUARD', None), ('DERIVE-KEEP', None), ('WIRE-1', inst_has('typename-variant', 'OPERATION_NAME')), ('BODY-CONST', None), ('NORM-ID', None), ('GRAMMAR', None), ('OPT-1', None), ('OPT-2', None), ('DERIVE-ONLY', None)],
-    'C10': [('REP-FRESH', None), ('ENUM-VALUES', None), ('GRAMMAR', None), ('ENUM-SHAPE', None), ('ENUM-OPEN', None), ('ENUM-ZIP', None), ('WIRE-1', inst_has('enum-value')),
+    'C10': [('STORE-TOTAL', inst_has('stored_enums', 'floor')), ('CACHE-KEY', None), ('REP-FRESH', None), ('ENUM-VALUES', None), ('GRAMMAR', None), ('ENUM-SHAPE', None), ('ENUM-OPEN', None), ('ENUM-ZIP', None), ('WIRE-1', inst_has('enum-value')),
             ('OPT-1', inst_has('enum-value')), ('DERIVE-FILTER', None)],
-    'C11': [('ALIAS-KEY', None), ('GRAMMAR', None), ('KW-TABLE', None), ('IDENT-1', None), ('IDENT-2', None), ('WIRE-1', inst_has('field[', 'variant[', 'enum-value', 'floor/')),
+    'C11': [('SEL-TOTAL', None), ('ALIAS-KEY', None), ('GRAMMAR', None), ('KW-TABLE', None), ('IDENT-1', None), ('IDENT-2', None), ('WIRE-1', inst_has('field[', 'variant[', 'enum-value', 'floor/')),
             ('WIRE-2', None)],
     'C12': [('SET-SCOPE', None), ('SKIP-NONE', inst_has('StoredInputType', 'ResolvedVariable')), ('VISITED-DISCIPLINE', None), ('REACH-KINDS', None), ('GRAMMAR', None), ('BOX-SITES', None), ('BOX-INVISIBLE', None), ('REACH-INPUT', None), ('REACH-FRAGMENT', None),
             ('REC-GUARD', inst_has('contains_type_without_indirection', 'contains_fragment', 'fragment_is_recursive', 'input_is_recursive'))],
-    'C13': [('SCALAR-BUILTIN', None), ('GRAMMAR', None), ('TYPES-1', None), ('TYPES-2', None), ('TYPES-3', None), ('TYPES-4', None), ('TYPES-5', None)],
+    'C13': [('STORE-TOTAL', inst_has('stored_fields', 'floor')), ('CACHE-KEY', None), ('SCALAR-BUILTIN', None), ('GRAMMAR', None), ('TYPES-1', None), ('TYPES-2', None), ('TYPES-3', None), ('TYPES-4', None), ('TYPES-5', None)],
     'C14': [('SCAN-GUARD', None), ('GRAMMAR', None), ('DEPR-TABLE', None), ('DEPR-NOTE', None), ('DEPR-ORIGIN', None), ('DEPR-DEFAULT', None), ('SIB-3', None),
             ('ATTR-PRECISION', inst_has('deny_unknown', 'struct/'))],
-    'C15': [('ENV-ACCEPT', None), ('ENV-ROUNDTRIP', None), ('DISPLAY-FORMAT', None), ('DISPLAY-TOTAL', None)],
-    'C16': [('ATTR-PRECISION', inst_has('default', 'deserialize_with')), ('NORM-ID', None), ('GRAMMAR', None), ('ID-SHAPE', None), ('ID-ATTACH', None), ('ID-TYPING', None), ('ID-ABSENT', None), ('ID-HELPER', None)],
-    'C17': [('SET-SCOPE', None), ('VISITED-DISCIPLINE', None), ('DOUBLE-DESCENT', None), ('REC-GUARD', None), ('LOOP-PROGRESS', None), ('NO-ABORT', None), ('PIPE-DRAIN', None)],
+    'C15': [('FMT-SELF', inst_has('graphql_client::Error', 'PathFragment', 'floor')), ('ENV-ACCEPT', None), ('ENV-ROUNDTRIP', None), ('DISPLAY-FORMAT', None), ('DISPLAY-TOTAL', None)],
+    'C16': [('TYPES-3', None), ('ATTR-PRECISION', inst_has('default', 'deserialize_with')), ('NORM-ID', None), ('GRAMMAR', None), ('ID-SHAPE', None), ('ID-ATTACH', None), ('ID-TYPING', None), ('ID-ABSENT', None), ('ID-HELPER', None)],
+    'C17': [('FMT-SELF', None), ('SET-SCOPE', None), ('VISITED-DISCIPLINE', None), ('DOUBLE-DESCENT', None), ('REC-GUARD', None), ('LOOP-PROGRESS', None), ('NO-ABORT', None), ('PIPE-DRAIN', None)],
     'C18': [('DERIVE-KEEP', None), ('DEPR-DEFAULT', None), ('SCAN-GUARD', None), ('VALUE-PARSE', None), ('ATTR-PLUMB', None), ('ATTR-DEFAULTS', None), ('ATTR-PATHS', None), ('ATTR-MODE', None)],
     'C19': [('BODY-STRUCT', None), ('DERIVE-KEEP', None), ('PIPE-DRAIN', None), ('FLAG-PLUMB', None), ('OUT-CONTENT', None), ('OUT-PATH', None), ('NO-WRITE-ON-ERROR', None), ('ONE-ENTRY', None),
             ('ERR-PROPAGATED', inst_has('generate::'))],
